@@ -12,7 +12,7 @@ GLOBAL_ASSUMPTIONS = [
 PROPERTIES = {
     "C01": {
         "contracts": [indexing.LocateOne, indexing.LocateMany, indexing.ExpandedIndexer, (bases.AxisLoc, r"^(?!slice-)"),
-                      bases.GetIndices, bases.GetItem, bases.Accessors, bases.ItemForwarding],
+                      bases.GetIndices, bases.GetItem, bases.Accessors, bases.ItemForwarding, bases.IndexFormsNative],
         "level": "proof",
         "min_obligations": 2000,
     },
@@ -130,7 +130,7 @@ PROPERTIES = {
     },
     "C02": {
         "contracts": [indexing.LocateSlice, (indexing.LocateOne, r"^exact"), (bases.AxisLoc, r"^slice-"),
-                      (bases.GetIndices, r"slice"), (bases.GetItem, r"slice")],
+                      (bases.GetIndices, r"slice"), (bases.GetItem, r"slice"), (bases.IndexFormsNative, r"slice")],
         "level": "proof",
         "min_obligations": 100,
     },
